@@ -529,6 +529,20 @@ def find_sinks(prog, fi):
             opens.append((n, mode))
             if mode == "?" or (set(mode) & WRITE_MODES):
                 out.append(Sink(fi, n, "open:" + mode, n.args[0], mode))
+        elif ext in ("numpy.memmap", "numpy.lib.format.open_memmap") and n.args:
+            # np.memmap maps the file read-WRITE by default ('r+'): every store through the array (or a view of
+            # it) is written back to the file; only mode 'r' (read-only) and 'c' (copy-on-write) leave it alone
+            mode = "r+"
+            if len(n.args) > 2:
+                mode = n.args[2].value if isinstance(n.args[2], ast.Constant) else "?"
+            for k in n.keywords:
+                if k.arg == "mode":
+                    mode = k.value.value if isinstance(k.value, ast.Constant) else "?"
+            if mode not in ("r", "c"):
+                out.append(Sink(fi, n, "memmap:" + str(mode), n.args[0], mode))
+        elif ext == "numpy.load" and n.args and any(k.arg == "mmap_mode" and not (isinstance(k.value, ast.Constant)
+                                                    and k.value.value in (None, "r", "c")) for k in n.keywords):
+            out.append(Sink(fi, n, "load:mmap", n.args[0], "r+"))
         elif ext in SINK_CALLS and n.args:
             idxs = [SINK_CALLS[ext]] if SINK_CALLS[ext] is not None else list(range(min(2, len(n.args))))
             for i in idxs:
